@@ -10,6 +10,13 @@ class Indent:
     def __init__(
         self, outputs, indent, increment=False
     ):  # type: (List[Output], int, bool) -> None
+        # An output that plays several roles (standard and error output of one
+        # I/O) is indented once
+        outputs = [
+            output
+            for i, output in enumerate(outputs)
+            if not any(output is other for other in outputs[:i])
+        ]
         self._outputs = outputs
         self._original_indents = [output._indent for output in outputs]
 
